@@ -20,7 +20,9 @@ type Inj struct {
 	ID      int
 }
 
-func (i Inj) String() string { return fmt.Sprintf("INJ TunnelReq ch=%d seq=%d id=%d", i.Ch, i.Seq, i.ID) }
+func (i Inj) String() string {
+	return fmt.Sprintf("INJ TunnelReq ch=%d seq=%d id=%d", i.Ch, i.Seq, i.ID)
+}
 
 // refReceiver is the reference model of the property: one counter.
 type refReceiver struct {
